@@ -119,7 +119,7 @@ TraceSpecD == TraceInitD /\ [][TraceNextD]_tvars
 (* what the real Get returned is inside every lease granted on the path     *)
 ObservedFollowsParent ==
   (l > 1 /\ TraceLog[l - 1].ev # "Reset") =>
-     \A z \in Zones : TraceLog[l - 1].vis[z] > 0 =>
+     \A z \in Zones : TraceLog[l - 1].ret[z] =>
         /\ \A a \in PathSet(z) : now < granted[a]
         /\ Visible(z)
 (* an answer the real cache served was learned through leases still running *)
